@@ -84,8 +84,8 @@ def ceilPos (x : Q) : Nat := (x.num.toNat + x.den - 1) / x.den
     Range A (`|stop - start|·sd < 2^24` and `|sn| < 2^24`): the conversions `float(stop - start)`, `float(step)` are exact and
     the correctly rounded quotient has the same ceiling and the same sign as the exact quotient (ASSUMPTION "arange
     quotient", see lib/props/c04.py), so the count is computed from the exact quotient.
-    Outside range A with an `int` step the float32 computation is carried out literally (`f32Round`); a real step outside
-    range A is not modelled (`none`). -/
+    An `int` step does not go through binary32 any more (repair "arange.float32-length"): exact for every range.
+    A real step outside range A is not modelled (`none`). -/
 def arangeLenExact (n sn : Int) (sd : Nat) : Nat :=
   let q : Q := Q.div ⟨n * sd, 1⟩ ⟨sn, 1⟩
   if q.num > 0 then ceilPos q else 0
@@ -96,10 +96,11 @@ def arangeLenF32 (n sn : Int) : Nat :=
   if q.num > 0 then ceilPos q else 0
 
 def arangeLen (start stop sn : Int) (sd : Nat) : Option Nat :=
-  if sn = 0 ∨ sd = 0 then none else
   let n := stop - start
-  if n.natAbs * sd < 2 ^ 24 ∧ sn.natAbs < 2 ^ 24 then some (arangeLenExact n sn sd)
-  else if sd = 1 then some (arangeLenF32 n sn)
+  -- integer step (repaired code): exact integer ceiling division in `long long`; step 0 gives an empty range
+  if sd = 1 then some (if sn = 0 then 0 else arangeLenExact n sn 1)
+  else if sn = 0 ∨ sd = 0 then none
+  else if n.natAbs * sd < 2 ^ 24 ∧ sn.natAbs < 2 ^ 24 then some (arangeLenExact n sn sd)
   else none
 
 /-- `arange_t::operator()(k)`: `T(start) + T(k) * step` as an expression -/
